@@ -78,6 +78,394 @@ Proof.
     exists x, (y :: l1), l2. subst. auto.
 Qed.
 
+(* =================================================================== syntactic invariants *)
+(* (1) the constructors only rearrange atoms; (2) values of programs without bare constants
+   have no constant summand. *)
+Lemma atoms_Add ts : atoms (Add ts) = flat_map atoms ts.
+Proof. induction ts as [|t r IH]; [reflexivity|]. cbn [atoms flat_map] in *. now rewrite IH. Qed.
+
+Lemma is_zero_mul_r q q' : is_zero q' = true -> is_zero (Qred (q * q')) = true.
+Proof. rewrite !is_zero_iff. intros H. rewrite Qred_correct, H. ring. Qed.
+Lemma is_zero_add q q' : is_zero q = true -> is_zero q' = true -> is_zero (Qred (q + q')) = true.
+Proof. rewrite !is_zero_iff. intros H H'. rewrite Qred_correct, H, H'. reflexivity. Qed.
+
+Lemma atoms_mkcst q m : atoms (mkcst q m) = [].
+Proof. unfold mkcst. now destruct (is_zero q). Qed.
+
+Lemma atoms_scale_term q t : incl (atoms (scale_term q t)) (atoms t).
+Proof.
+  destruct t; unfold scale_term; try apply incl_refl.
+  - rewrite atoms_mkcst. apply incl_refl.
+  - destruct m; [destruct (is_one _)|]; apply incl_refl.
+Qed.
+
+Lemma atoms_mkmul q m v : incl (atoms (mkmul q m v)) (atoms v).
+Proof.
+  unfold mkmul. destruct (is_zero q); [intros a []|].
+  destruct m; [|apply incl_refl]. destruct (is_one q); [apply incl_refl|].
+  destruct v; try apply incl_refl. destruct (is_comm (Add ts)); [|apply incl_refl].
+  rewrite !atoms_Add. intros a Ha. apply in_flat_map in Ha. destruct Ha as [x [Hx Ha]].
+  apply in_map_iff in Hx. destruct Hx as [t [<- Ht]]. apply in_flat_map. exists t. split; [exact Ht|].
+  now apply (atoms_scale_term q t).
+Qed.
+
+Lemma atoms_scale c e : incl (atoms (scale c e)) (atoms e).
+Proof.
+  destruct c as [q m]. unfold scale. destruct e; try apply atoms_mkmul.
+  - rewrite atoms_mkcst. apply incl_refl.
+  - apply (atoms_mkmul _ _ e).
+Qed.
+
+Definition patoms (l : list (Q * expr)) := flat_map (fun p => atoms (snd p)) l.
+
+Lemma atoms_flat_add t : incl (flat_map atoms (flat_add t)) (atoms t).
+Proof.
+  induction t as [s k n|a IH|a IH|a IH|a1 a2 IH1 IH2|ts IH|q m|q m v IH] using expr_ind';
+    try (cbn [flat_add flat_map]; rewrite app_nil_r; apply incl_refl).
+  rewrite atoms_Add. cbn [flat_add]. induction IH as [|t r Ht Hr IHr]; [apply incl_refl|].
+  rewrite flat_map_app. cbn [flat_map]. apply incl_app.
+  - apply incl_appl. exact Ht.
+  - apply incl_appr. exact IHr.
+Qed.
+
+Lemma atoms_term_split t : incl (atoms (snd (term_split t))) (atoms t).
+Proof. destruct t; cbn [term_split snd]; try apply incl_refl. destruct m; apply incl_refl. Qed.
+
+Lemma patoms_collect q key acc : incl (patoms (collect q key acc)) (atoms key ++ patoms acc).
+Proof.
+  induction acc as [|[q' key'] r IH]; cbn [collect].
+  - unfold patoms. cbn [flat_map snd]. apply incl_refl.
+  - destruct (eqv false key key').
+    + apply incl_appr. apply incl_refl.
+    + unfold patoms in *. cbn [flat_map snd]. intros a Ha. apply in_app_or in Ha. destruct Ha as [Ha|Ha].
+      * apply in_or_app. right. apply in_or_app. now left.
+      * apply IH in Ha. apply in_app_or in Ha. apply in_or_app. destruct Ha as [Ha|Ha]; [now left|right].
+        apply in_or_app. now right.
+Qed.
+
+Lemma patoms_collect_all l : incl (patoms (collect_all l)) (flat_map atoms l).
+Proof.
+  unfold collect_all.
+  assert (Hg : forall acc, incl (patoms (fold_left (fun acc t => let (q, key) := term_split t in collect q key acc) l acc))
+                                (flat_map atoms l ++ patoms acc)).
+  { induction l as [|t r IH]; intros acc; cbn [fold_left flat_map].
+    - apply incl_refl.
+    - intros a Ha. apply IH in Ha. pose proof (atoms_term_split t) as Hs.
+      destruct (term_split t) as [q key]. cbn [snd] in Hs.
+      apply in_app_or in Ha. destruct Ha as [Ha|Ha].
+      + apply in_or_app. left. apply in_or_app. now right.
+      + apply patoms_collect in Ha. apply in_app_or in Ha. destruct Ha as [Ha|Ha].
+        * apply in_or_app. left. apply in_or_app. left. now apply Hs.
+        * apply in_or_app. now right. }
+  intros a Ha. apply Hg in Ha. apply in_app_or in Ha. destruct Ha as [Ha|[]]. exact Ha.
+Qed.
+
+Lemma atoms_term_build q key : incl (atoms (term_build q key)) (atoms key).
+Proof. unfold term_build. destruct (is_one q); [apply incl_refl|]. destruct key; apply incl_refl. Qed.
+
+Lemma atoms_rebuild l : incl (flat_map atoms (rebuild l)) (patoms l).
+Proof.
+  unfold rebuild, patoms. induction l as [|[q key] r IH]; [apply incl_refl|].
+  cbn [filter fst snd flat_map]. destruct (negb (is_zero q)); cbn [map flat_map fst snd].
+  - apply incl_app; [apply incl_appl, atoms_term_build | apply incl_appr, IH].
+  - apply incl_appr, IH.
+Qed.
+
+Lemma atoms_pack_add ts : incl (atoms (pack_add ts)) (flat_map atoms ts).
+Proof.
+  destruct ts as [|t [|t' r]]; unfold pack_add.
+  - intros x [].
+  - cbn [flat_map]. rewrite app_nil_r. apply incl_refl.
+  - rewrite atoms_Add. apply incl_refl.
+Qed.
+
+Lemma atoms_sadd args : incl (atoms (sadd args)) (flat_map atoms args).
+Proof.
+  unfold sadd. intros a Ha. apply atoms_pack_add, atoms_rebuild, patoms_collect_all in Ha.
+  apply in_flat_map in Ha. destruct Ha as [x [Hx Ha]]. apply in_flat_map in Hx. destruct Hx as [t [Ht Hx]].
+  apply in_flat_map. exists t. split; [exact Ht|]. apply (atoms_flat_add t). apply in_flat_map. now exists x.
+Qed.
+
+Lemma atoms_mul_arm (Op : expr -> expr) q m v :
+  (forall x, atoms (Op x) = atoms x) -> incl (atoms (mul_arm Op q m v)) (atoms v).
+Proof.
+  intros H. unfold mul_arm. intros a Ha. apply atoms_scale in Ha. rewrite H in Ha. now apply atoms_scale in Ha.
+Qed.
+Lemma atoms_mul_arm_cst (Op : expr -> expr) q m :
+  (forall x, atoms (Op x) = atoms x) -> atoms (mul_arm_cst Op q m) = [].
+Proof.
+  intros H. unfold mul_arm_cst.
+  assert (K : forall c x, atoms x = [] -> atoms (scale c x) = []).
+  { intros c x Hx. pose proof (atoms_scale c x) as Hi. rewrite Hx in Hi.
+    destruct (atoms (scale c x)) as [|a r]; [reflexivity|]. destruct (Hi a). now left. }
+  destruct (m_pow m); apply K; [reflexivity|]. now rewrite H.
+Qed.
+
+Lemma atoms_map_sadd (f : expr -> expr) ts :
+  Forall (fun t => incl (atoms (f t)) (atoms t)) ts -> incl (atoms (sadd (map f ts))) (atoms (Add ts)).
+Proof.
+  intros H a Ha. apply atoms_sadd in Ha. rewrite atoms_Add. apply in_flat_map in Ha.
+  destruct Ha as [x [Hx Ha]]. apply in_map_iff in Hx. destruct Hx as [t [<- Ht]].
+  apply in_flat_map. exists t. split; [exact Ht|]. rewrite Forall_forall in H. now apply (H t Ht).
+Qed.
+
+Lemma atoms_mk_d e : incl (atoms (mk_d e)) (atoms e).
+Proof.
+  induction e as [s k n|a IH|a IH|a IH|a1 a2 IH1 IH2|ts IH|q m|q m v IH] using expr_ind';
+    try apply incl_refl.
+  - cbn [mk_d]. destruct (Nat.eqb k n); [intros x []|apply incl_refl].
+  - intros x [].
+  - cbn [mk_d]. now apply atoms_map_sadd.
+  - cbn [mk_d]. destruct (is_coeff_cst q m); [apply incl_refl|]. destruct (is_mul_cst q m); [|apply incl_refl].
+    rewrite atoms_mul_arm_cst; [apply incl_refl|reflexivity].
+  - cbn [mk_d atoms]. apply (atoms_mul_arm D); reflexivity.
+Qed.
+Lemma atoms_mk_delta e : incl (atoms (mk_delta e)) (atoms e).
+Proof.
+  induction e as [s k n|a IH|a IH|a IH|a1 a2 IH1 IH2|ts IH|q m|q m v IH] using expr_ind';
+    try apply incl_refl.
+  - cbn [mk_delta]. destruct (Nat.eqb k 0); [intros x []|apply incl_refl].
+  - intros x [].
+  - cbn [mk_delta]. now apply atoms_map_sadd.
+  - cbn [mk_delta]. destruct (is_coeff_cst q m); [apply incl_refl|]. destruct (is_mul_cst q m); [|apply incl_refl].
+    rewrite atoms_mul_arm_cst; [apply incl_refl|reflexivity].
+  - cbn [mk_delta atoms]. apply (atoms_mul_arm Delta); reflexivity.
+Qed.
+Lemma atoms_mk_hodge e : incl (atoms (mk_hodge e)) (atoms e).
+Proof.
+  induction e as [s k n|a IH|a IH|a IH|a1 a2 IH1 IH2|ts IH|q m|q m v IH] using expr_ind';
+    try apply incl_refl.
+  - destruct a; try apply incl_refl. cbn [mk_hodge]. apply (atoms_scale _ (Form name k n)).
+  - cbn [mk_hodge]. now apply atoms_map_sadd.
+  - cbn [mk_hodge]. destruct (is_coeff_cst q m); [apply incl_refl|]. destruct (is_mul_cst q m); [|apply incl_refl].
+    rewrite atoms_mul_arm_cst; [apply incl_refl|reflexivity].
+  - cbn [mk_hodge atoms]. apply (atoms_mul_arm Hodge); reflexivity.
+Qed.
+
+Lemma atoms_split_coeff e : incl (atoms (snd (split_coeff e))) (atoms e).
+Proof.
+  destruct e; try apply incl_refl.
+  - cbn [split_coeff]. destruct (is_mul_cst q m); [|apply incl_refl]. cbn [snd].
+    destruct (m_pow m); apply incl_refl.
+  - cbn [split_coeff snd]. apply (atoms_scale _ e).
+Qed.
+Lemma atoms_wedge_core l r : incl (atoms (wedge_core l r)) (atoms l ++ atoms r).
+Proof.
+  unfold wedge_core. pose proof (atoms_split_coeff l) as Hl. pose proof (atoms_split_coeff r) as Hr.
+  destruct (split_coeff l) as [a l'], (split_coeff r) as [b r']. cbn [snd] in *.
+  intros x Hx. apply atoms_scale in Hx. cbn [atoms] in Hx. apply in_app_or in Hx. apply in_or_app.
+  destruct Hx as [Hx|Hx]; [left; now apply Hl | right; now apply Hr].
+Qed.
+Lemma atoms_wedge_r l r : incl (atoms (wedge_r l r)) (atoms l ++ atoms r).
+Proof.
+  induction r as [s k n|a IH|a IH|a IH|a1 a2 IH1 IH2|ts IH|q m|q m v IH] using expr_ind';
+    try apply atoms_wedge_core.
+  cbn [wedge_r]. intros x Hx. apply atoms_sadd in Hx. apply in_flat_map in Hx.
+  destruct Hx as [y [Hy Hx]]. apply in_map_iff in Hy. destruct Hy as [t [<- Ht]].
+  rewrite Forall_forall in IH. apply (IH t Ht) in Hx. apply in_app_or in Hx. apply in_or_app.
+  destruct Hx as [Hx|Hx]; [now left|right]. rewrite atoms_Add. apply in_flat_map. now exists t.
+Qed.
+Lemma atoms_mk_wedge l r : incl (atoms (mk_wedge l r)) (atoms l ++ atoms r).
+Proof.
+  induction l as [s k n|a IH|a IH|a IH|a1 a2 IH1 IH2|ts IH|q m|q m v IH] using expr_ind';
+    try apply atoms_wedge_r.
+  cbn [mk_wedge]. intros x Hx. apply atoms_sadd in Hx. apply in_flat_map in Hx.
+  destruct Hx as [y [Hy Hx]]. apply in_map_iff in Hy. destruct Hy as [t [<- Ht]].
+  rewrite Forall_forall in IH. apply (IH t Ht) in Hx. apply in_app_or in Hx. apply in_or_app.
+  destruct Hx as [Hx|Hx]; [left|now right]. rewrite atoms_Add. apply in_flat_map. now exists t.
+Qed.
+
+(* ------------------------------------------------------------------ no constant summand *)
+Fixpoint nocst (e : expr) : bool :=
+  match e with
+  | Cst _ _ => false
+  | Add ts => (fix all (l : list expr) : bool :=
+                 match l with [] => true | t :: r => nocst t && all r end) ts
+  | Mul _ _ v => nocst v
+  | _ => true
+  end.
+Definition is_zero_e (e : expr) : bool := match e with Cst q [] => is_zero q | _ => false end.
+Definition iscst (e : expr) : bool := match e with Cst _ _ => true | _ => false end.
+(* a value that is 0 or has no constant summand: what programs without bare constants produce *)
+Definition okv (e : expr) : bool := is_zero_e e || nocst e.
+
+Lemma nocst_Add ts : nocst (Add ts) = forallb nocst ts.
+Proof. induction ts as [|t r IH]; [reflexivity|]. cbn [nocst forallb] in *. now rewrite IH. Qed.
+Lemma nocst_okv e : nocst e = true -> okv e = true.
+Proof. intros H. unfold okv. rewrite H. apply orb_true_r. Qed.
+Lemma okv_zero : okv zero = true.
+Proof. reflexivity. Qed.
+Lemma okv_cases e : okv e = true -> (is_zero_e e = true /\ iscst e = true) \/ nocst e = true.
+Proof.
+  unfold okv. intros H. apply orb_true_iff in H. destruct H as [H|H]; [left|now right].
+  split; [exact H|]. destruct e; try discriminate. reflexivity.
+Qed.
+
+Lemma nocst_scale_term q t : nocst t = true -> nocst (scale_term q t) = true.
+Proof.
+  destruct t; unfold scale_term; intros H; try exact H; try discriminate.
+  destruct m; [destruct (is_one _)|]; exact H.
+Qed.
+Lemma okv_mkmul q m v : nocst v = true -> okv (mkmul q m v) = true.
+Proof.
+  intros H. unfold mkmul. destruct (is_zero q); [reflexivity|].
+  destruct m; [|now apply nocst_okv]. destruct (is_one q); [now apply nocst_okv|].
+  destruct v; try (now apply nocst_okv). destruct (is_comm (Add ts)); [|now apply nocst_okv].
+  apply nocst_okv. rewrite nocst_Add in *. rewrite forallb_forall in *. intros x Hx.
+  apply in_map_iff in Hx. destruct Hx as [t [<- Ht]]. apply nocst_scale_term. now apply H.
+Qed.
+Lemma okv_scale c e : okv e = true -> okv (scale c e) = true.
+Proof.
+  intros H. destruct c as [q m]. apply okv_cases in H. destruct H as [[Hz Hc]|Hn].
+  - destruct e; try discriminate. destruct m0; [|discriminate]. cbn [is_zero_e] in Hz.
+    unfold scale, mkcst. now rewrite (is_zero_mul_r q q0 Hz).
+  - unfold scale. destruct e; try (now apply okv_mkmul); try discriminate.
+Qed.
+
+(* Add( ... ) *)
+Definition pok (p : Q * expr) : Prop :=
+  nocst (snd p) = true \/ (is_zero (fst p) = true /\ iscst (snd p) = true).
+
+Lemma eqv_iscst b k k' : eqv b k k' = true -> iscst k' = true -> iscst k = true.
+Proof. destruct k, k'; cbn [eqv iscst]; intros; try discriminate; reflexivity. Qed.
+Lemma nocst_not_cst e : nocst e = true -> iscst e = false.
+Proof. destruct e; try reflexivity. discriminate. Qed.
+
+Lemma pok_collect q key acc : pok (q, key) -> Forall pok acc -> Forall pok (collect q key acc).
+Proof.
+  intros Hp Ha. induction Ha as [|[q' key'] r Hx Hr IH]; cbn [collect].
+  - constructor; [exact Hp|constructor].
+  - destruct (eqv false key key') eqn:E.
+    + constructor; [|exact Hr]. destruct Hx as [Hx|[Hz Hc]]; [now left|right]. cbn [fst snd] in *.
+      split; [|exact Hc]. pose proof (eqv_iscst _ _ _ E Hc) as Hk.
+      destruct Hp as [Hp|[Hp _]]; cbn [fst snd] in Hp.
+      * apply nocst_not_cst in Hp. congruence.
+      * now apply is_zero_add.
+    + constructor; [exact Hx|exact IH].
+Qed.
+
+Lemma pok_term_split t : okv t = true -> pok (term_split t).
+Proof.
+  intros H. apply okv_cases in H. destruct H as [[Hz Hc]|Hn].
+  - destruct t; try discriminate. destruct m; [|discriminate]. right. cbn [term_split fst snd]. now split.
+  - left. destruct t; cbn [term_split snd]; try exact Hn; try discriminate. destruct m; exact Hn.
+Qed.
+
+Lemma pok_collect_all l : Forall (fun t => okv t = true) l -> Forall pok (collect_all l).
+Proof.
+  unfold collect_all. intros H.
+  assert (Hg : forall acc, Forall pok acc ->
+             Forall pok (fold_left (fun acc t => let (q, key) := term_split t in collect q key acc) l acc)).
+  { induction H as [|t r Ht Hr IH]; intros acc Ha; cbn [fold_left]; [exact Ha|].
+    apply IH. pose proof (pok_term_split t Ht) as Hp. destruct (term_split t) as [q key].
+    now apply pok_collect. }
+  apply Hg. constructor.
+Qed.
+
+Lemma nocst_term_build q key : nocst key = true -> nocst (term_build q key) = true.
+Proof.
+  intros H. unfold term_build. destruct (is_one q); [exact H|]. destruct key; try exact H; try discriminate.
+Qed.
+Lemma nocst_rebuild l : Forall pok l -> forallb nocst (rebuild l) = true.
+Proof.
+  unfold rebuild. induction 1 as [|[q key] r Hx Hr IH]; [reflexivity|].
+  cbn [filter fst snd]. destruct (is_zero q) eqn:E; cbn [negb]; [exact IH|].
+  cbn [map forallb fst snd]. rewrite IH. destruct Hx as [Hx|[Hz _]]; cbn [fst snd] in *.
+  - now rewrite (nocst_term_build q key Hx).
+  - congruence.
+Qed.
+Lemma okv_pack_add ts : forallb nocst ts = true -> okv (pack_add ts) = true.
+Proof.
+  intros H. destruct ts as [|t [|t' r]]; unfold pack_add.
+  - reflexivity.
+  - cbn [forallb] in H. rewrite andb_true_r in H. now apply nocst_okv.
+  - apply nocst_okv. now rewrite nocst_Add.
+Qed.
+
+Lemma okv_flat_add t : okv t = true -> Forall (fun x => okv x = true) (flat_add t).
+Proof.
+  intros H. apply okv_cases in H. destruct H as [[Hz Hc]|Hn].
+  - destruct t; try discriminate. cbn [flat_add]. constructor; [|constructor].
+    unfold okv. now rewrite Hz.
+  - revert Hn. induction t as [s k n|a IH|a IH|a IH|a1 a2 IH1 IH2|ts IH|q m|q m v IH] using expr_ind';
+      intros Hn; try (cbn [flat_add]; constructor; [now apply nocst_okv|constructor]).
+    + cbn [flat_add]. rewrite nocst_Add in Hn. induction IH as [|t r Ht Hr IHr]; [constructor|].
+      cbn [forallb] in Hn. apply andb_true_iff in Hn. destruct Hn as [H1 H2].
+      apply Forall_app. split; [now apply Ht | now apply IHr].
+Qed.
+
+Lemma okv_sadd args : Forall (fun t => okv t = true) args -> okv (sadd args) = true.
+Proof.
+  intros H. unfold sadd. apply okv_pack_add, nocst_rebuild, pok_collect_all.
+  induction H as [|t r Ht Hr IH]; [constructor|]. cbn [flat_map]. apply Forall_app. split; [|exact IH].
+  now apply okv_flat_add.
+Qed.
+
+Lemma okv_map_sadd (f : expr -> expr) ts :
+  Forall (fun t => nocst t = true -> okv (f t) = true) ts -> nocst (Add ts) = true ->
+  okv (sadd (map f ts)) = true.
+Proof.
+  intros H Hn. apply okv_sadd. rewrite nocst_Add, forallb_forall in Hn. rewrite Forall_forall in *.
+  intros x Hx. apply in_map_iff in Hx. destruct Hx as [t [<- Ht]]. apply (H t Ht). now apply Hn.
+Qed.
+
+Lemma okv_mul_arm (Op : expr -> expr) q m v :
+  (forall x, nocst (Op x) = true) -> okv (mul_arm Op q m v) = true.
+Proof. intros H. unfold mul_arm. apply okv_scale, nocst_okv, H. Qed.
+
+Lemma okv_mk_d e : okv e = true -> okv (mk_d e) = true.
+Proof.
+  intros H. apply okv_cases in H. destruct H as [[Hz Hc]|Hn].
+  - destruct e; try discriminate. destruct m; [|discriminate]. reflexivity.
+  - revert Hn. induction e as [s k n|a IH|a IH|a IH|a1 a2 IH1 IH2|ts IH|q m|q m v IH] using expr_ind';
+      intros Hn; try reflexivity.
+    + cbn [mk_d]. now destruct (Nat.eqb k n).
+    + cbn [mk_d]. now apply okv_map_sadd.
+    + discriminate.
+    + cbn [mk_d]. now apply okv_mul_arm.
+Qed.
+Lemma okv_mk_delta e : okv e = true -> okv (mk_delta e) = true.
+Proof.
+  intros H. apply okv_cases in H. destruct H as [[Hz Hc]|Hn].
+  - destruct e; try discriminate. destruct m; [|discriminate]. reflexivity.
+  - revert Hn. induction e as [s k n|a IH|a IH|a IH|a1 a2 IH1 IH2|ts IH|q m|q m v IH] using expr_ind';
+      intros Hn; try reflexivity.
+    + cbn [mk_delta]. now destruct (Nat.eqb k 0).
+    + cbn [mk_delta]. now apply okv_map_sadd.
+    + discriminate.
+    + cbn [mk_delta]. now apply okv_mul_arm.
+Qed.
+Lemma okv_mk_hodge e : okv e = true -> okv (mk_hodge e) = true.
+Proof.
+  intros H. apply okv_cases in H. destruct H as [[Hz Hc]|Hn].
+  - destruct e; try discriminate. destruct m; [|discriminate]. reflexivity.
+  - revert Hn. induction e as [s k n|a IH|a IH|a IH|a1 a2 IH1 IH2|ts IH|q m|q m v IH] using expr_ind';
+      intros Hn; try reflexivity.
+    + destruct a; try reflexivity. cbn [mk_hodge]. now apply okv_scale.
+    + cbn [mk_hodge]. now apply okv_map_sadd.
+    + discriminate.
+    + cbn [mk_hodge]. now apply okv_mul_arm.
+Qed.
+
+Lemma okv_wedge_core l r : okv (wedge_core l r) = true.
+Proof.
+  unfold wedge_core. destruct (split_coeff l) as [a l'], (split_coeff r) as [b r']. now apply okv_scale.
+Qed.
+Lemma okv_wedge_r l r : okv (wedge_r l r) = true.
+Proof.
+  induction r as [s k n|a IH|a IH|a IH|a1 a2 IH1 IH2|ts IH|q m|q m v IH] using expr_ind';
+    try apply okv_wedge_core.
+  cbn [wedge_r]. apply okv_sadd. rewrite Forall_forall in *. intros x Hx.
+  apply in_map_iff in Hx. destruct Hx as [t [<- Ht]]. now apply IH.
+Qed.
+Lemma okv_mk_wedge l r : okv (mk_wedge l r) = true.
+Proof.
+  induction l as [s k n|a IH|a IH|a IH|a1 a2 IH1 IH2|ts IH|q m|q m v IH] using expr_ind';
+    try apply okv_wedge_r.
+  cbn [mk_wedge]. apply okv_sadd. rewrite Forall_forall in *. intros x Hx.
+  apply in_map_iff in Hx. destruct Hx as [t [<- Ht]]. now apply IH.
+Qed.
+
 (* =================================================================== semantics *)
 Section Sound.
   Variable G : gops.
@@ -576,9 +964,10 @@ Section Sound.
 
   Lemma wedge_core_sound l r : den (wedge_core l r) = opwedge G (den l) (den r).
   Proof.
-    unfold wedge_core. rewrite (split_coeff_sound l) at 2. rewrite (split_coeff_sound r) at 2.
-    destruct (split_coeff l) as [a l'], (split_coeff r) as [b r']. cbn [fst snd].
-    rewrite den_scale, cval_cmul. cbn [denote].
+    unfold wedge_core.
+    pose proof (split_coeff_sound l) as Hl. pose proof (split_coeff_sound r) as Hr.
+    destruct (split_coeff l) as [a l'], (split_coeff r) as [b r']. cbn [fst snd] in Hl, Hr.
+    rewrite Hl, Hr, den_scale, cval_cmul. cbn [denote].
     rewrite (L_wedge_smul_l G HL), (L_wedge_smul_r G HL), smul_smul. reflexivity.
   Qed.
 
@@ -603,3 +992,576 @@ Section Sound.
                   (wedge_0_l (den r))), map_map.
     apply msum_map_ext. exact IH.
   Qed.
+
+  (* ---------------------------------------------------------------- programs *)
+  Lemma okv_gd e : okv e = true -> gd_ok e = true.
+  Proof.
+    intros H. apply okv_cases in H. destruct H as [[Hz Hc]|Hn].
+    - destruct e; try discriminate. destruct m; [reflexivity|discriminate].
+    - revert Hn. induction e as [s k n|a IH|a IH|a IH|a1 a2 IH1 IH2|ts IH|q m|q m v IH] using expr_ind';
+        intros Hn; try reflexivity; try discriminate.
+      rewrite nocst_Add in Hn. induction IH as [|t r Ht Hr IHr]; [reflexivity|].
+      cbn [forallb] in Hn. apply andb_true_iff in Hn. destruct Hn as [H1 H2].
+      cbn [gd_ok] in *. rewrite (Ht H1). now apply IHr.
+  Qed.
+  Lemma okv_gh e : okv e = true -> gh_ok e = true.
+  Proof.
+    intros H. apply okv_cases in H. destruct H as [[Hz Hc]|Hn].
+    - destruct e; try discriminate. destruct m; [exact Hz|discriminate].
+    - revert Hn. induction e as [s k n|a IH|a IH|a IH|a1 a2 IH1 IH2|ts IH|q m|q m v IH] using expr_ind';
+        intros Hn; try reflexivity; try discriminate.
+      rewrite nocst_Add in Hn. induction IH as [|t r Ht Hr IHr]; [reflexivity|].
+      cbn [forallb] in Hn. apply andb_true_iff in Hn. destruct Hn as [H1 H2].
+      cbn [gh_ok] in *. rewrite (Ht H1). now apply IHr.
+  Qed.
+
+  Notation wt := (wft G fenv).
+  Lemma wf_incl e e' : incl (atoms e') (atoms e) -> wf e -> wf e'.
+  Proof. intros Hi H a Ha. apply H. now apply Hi. Qed.
+  Lemma wf_incl2 e1 e2 e' : incl (atoms e') (atoms e1 ++ atoms e2) -> wf e1 -> wf e2 -> wf e'.
+  Proof. intros Hi H1 H2 a Ha. apply Hi in Ha. apply in_app_or in Ha. destruct Ha; [now apply H1|now apply H2]. Qed.
+
+  (* e1 + e2 + ... evaluated from left to right *)
+  Definition sum_fold (l : list expr) (acc : expr) : expr := fold_left (fun a e => sadd [a; e]) l acc.
+  Lemma eval_TSum t0 r : eval (TSum (t0 :: r)) = sum_fold (map eval r) (eval t0).
+  Proof.
+    cbn [eval]. generalize (eval t0). unfold sum_fold.
+    induction r as [|t r IH]; intros acc; [reflexivity|]. cbn [map fold_left]. apply IH.
+  Qed.
+  Lemma sum_fold_props l : forall acc,
+    wf acc -> okv acc = true -> Forall (fun e => wf e /\ okv e = true) l ->
+    wf (sum_fold l acc) /\ okv (sum_fold l acc) = true /\
+    den (sum_fold l acc) = den acc +m msum (map den l).
+  Proof.
+    induction l as [|e r IH]; intros acc Hw Ho Hl; cbn [sum_fold fold_left map].
+    - repeat split; auto. now rewrite msum_cons || (cbn [msum fold_right]; now rewrite madd_0_r).
+    - inversion Hl as [|? ? [Hwe Hoe] Hr]; subst.
+      assert (Hw' : wf (sadd [acc; e])).
+      { intros a Ha. apply atoms_sadd in Ha. cbn [flat_map] in Ha. rewrite app_nil_r in Ha.
+        apply in_app_or in Ha. destruct Ha; [now apply Hw|now apply Hwe]. }
+      assert (Ho' : okv (sadd [acc; e]) = true) by (apply okv_sadd; repeat constructor; assumption).
+      destruct (IH _ Hw' Ho' Hr) as [H1 [H2 H3]]. repeat split; auto.
+      unfold sum_fold in H3. rewrite H3, sadd_sound. cbn [map]. rewrite !msum_cons.
+      cbn [msum fold_right]. rewrite madd_0_r. symmetry. apply (L_add_assoc G HL).
+  Qed.
+  Lemma td_TSum ts : td (TSum ts) = msum (map td ts).
+  Proof. induction ts as [|t r IH]; [reflexivity|]. cbn [tden map] in *. now rewrite msum_cons, <- IH. Qed.
+  Lemma tatoms_TSum ts : tatoms (TSum ts) = flat_map tatoms ts.
+  Proof. induction ts as [|t r IH]; [reflexivity|]. cbn [tatoms flat_map] in *. now rewrite IH. Qed.
+  Lemma const_free_TSum ts : const_free (TSum ts) = forallb const_free ts.
+  Proof. induction ts as [|t r IH]; [reflexivity|]. cbn [const_free forallb] in *. now rewrite IH. Qed.
+
+  (* MASTER THEOREM: for every program of the property's grammar, the value computed by the
+     four eval classmethods (with sympy's Add / Mul) denotes what the program means. *)
+  Theorem eval_sound t : wt t -> const_free t = true ->
+    wf (eval t) /\ okv (eval t) = true /\ den (eval t) = td t.
+  Proof.
+    induction t as [s k n|c|c t IH|ts IH|t IH|t IH|t IH|a b IHa IHb] using tree_ind'; intros Hw Hc.
+    - repeat split; auto.
+    - discriminate.
+    - destruct (IH Hw Hc) as [H1 [H2 H3]]. cbn [eval tden]. repeat split.
+      + apply (wf_incl (eval t)); [apply atoms_scale|exact H1].
+      + now apply okv_scale.
+      + now rewrite den_scale, H3.
+    - destruct ts as [|t0 r].
+      { repeat split; [intros a []|apply den_zero]. }
+      rewrite const_free_TSum in Hc. cbn [forallb] in Hc. apply andb_true_iff in Hc. destruct Hc as [Hc0 Hcr].
+      assert (Hws : Forall wt (t0 :: r)).
+      { apply Forall_forall. intros x Hx a Ha. apply Hw. rewrite tatoms_TSum. apply in_flat_map. now exists x. }
+      inversion IH as [|? ? IH0 IHr]; subst. inversion Hws as [|? ? Hw0 Hwr]; subst.
+      destruct (IH0 Hw0 Hc0) as [H1 [H2 H3]].
+      assert (Hl : Forall (fun e => wf e /\ okv e = true) (map eval r) /\ map den (map eval r) = map td r).
+      { clear - IHr Hwr Hcr. induction r as [|x r IHl]; [split; [constructor|reflexivity]|].
+        inversion IHr as [|? ? Hx Hr']; subst. inversion Hwr as [|? ? Hwx Hwr']; subst.
+        cbn [forallb] in Hcr. apply andb_true_iff in Hcr. destruct Hcr as [Hcx Hcr'].
+        destruct (Hx Hwx Hcx) as [K1 [K2 K3]]. destruct (IHl Hcr' Hr' Hwr') as [L1 L2].
+        split; [constructor; auto|]. cbn [map]. now rewrite K3, L2. }
+      destruct Hl as [Hl1 Hl2]. rewrite eval_TSum.
+      destruct (sum_fold_props _ _ H1 H2 Hl1) as [K1 [K2 K3]]. repeat split; auto.
+      rewrite K3, H3, Hl2, td_TSum. reflexivity.
+    - destruct (IH Hw Hc) as [H1 [H2 H3]]. cbn [eval tden]. repeat split.
+      + apply (wf_incl (eval t)); [apply atoms_mk_d|exact H1].
+      + now apply okv_mk_d.
+      + rewrite mk_d_sound; [now rewrite H3|exact H1|now apply okv_gd].
+    - destruct (IH Hw Hc) as [H1 [H2 H3]]. cbn [eval tden]. repeat split.
+      + apply (wf_incl (eval t)); [apply atoms_mk_delta|exact H1].
+      + now apply okv_mk_delta.
+      + rewrite mk_delta_sound; [now rewrite H3|exact H1|now apply okv_gd].
+    - destruct (IH Hw Hc) as [H1 [H2 H3]]. cbn [eval tden]. repeat split.
+      + apply (wf_incl (eval t)); [apply atoms_mk_hodge|exact H1].
+      + now apply okv_mk_hodge.
+      + rewrite mk_hodge_sound; [now rewrite H3|exact H1|now apply okv_gh].
+    - cbn [const_free] in Hc. apply andb_true_iff in Hc. destruct Hc as [Hca Hcb].
+      assert (Hwa : wt a) by (intros x Hx; apply Hw; cbn [tatoms]; apply in_or_app; now left).
+      assert (Hwb : wt b) by (intros x Hx; apply Hw; cbn [tatoms]; apply in_or_app; now right).
+      destruct (IHa Hwa Hca) as [A1 [A2 A3]]. destruct (IHb Hwb Hcb) as [B1 [B2 B3]].
+      cbn [eval tden]. repeat split.
+      + apply (wf_incl2 (eval a) (eval b)); [apply atoms_mk_wedge|exact A1|exact B1].
+      + apply okv_mk_wedge.
+      + now rewrite mk_wedge_sound, A3, B3.
+  Qed.
+
+  (* ---------------------------------------------------------------- the laws, for all programs *)
+  Notation ev t := (den (eval t)).
+  Definition prog (t : tree) : Prop := wt t /\ const_free t = true.
+
+  Lemma prog_sound t : prog t -> ev t = td t.
+  Proof. intros [Hw Hc]. now destruct (eval_sound t Hw Hc) as [_ [_ H]]. Qed.
+  Lemma prog_wf t : prog t -> wf (eval t).
+  Proof. intros [Hw Hc]. now destruct (eval_sound t Hw Hc) as [H _]. Qed.
+  Lemma prog_op1 (f : tree -> tree) t :
+    (forall x, tatoms (f x) = tatoms x) -> (forall x, const_free (f x) = const_free x) -> prog t -> prog (f t).
+  Proof. intros Ha Hc [H1 H2]. split; [intros a; rewrite Ha; apply H1 | now rewrite Hc]. Qed.
+  Lemma prog_D t : prog t -> prog (TD t).
+  Proof. apply (prog_op1 TD); reflexivity. Qed.
+  Lemma prog_Delta t : prog t -> prog (TDelta t).
+  Proof. apply (prog_op1 TDelta); reflexivity. Qed.
+  Lemma prog_Hodge t : prog t -> prog (THodge t).
+  Proof. apply (prog_op1 THodge); reflexivity. Qed.
+  Lemma prog_Scale c t : prog t -> prog (TScale c t).
+  Proof. apply (prog_op1 (TScale c)); reflexivity. Qed.
+  Lemma prog_Wedge a b : prog a -> prog b -> prog (TWedge a b).
+  Proof.
+    intros [A1 A2] [B1 B2]. split.
+    - intros x Hx. cbn [tatoms] in Hx. apply in_app_or in Hx. destruct Hx; [now apply A1|now apply B1].
+    - cbn [const_free]. now rewrite A2, B2.
+  Qed.
+  Lemma prog_Sum2 a b : prog a -> prog b -> prog (TSum [a; b]).
+  Proof.
+    intros [A1 A2] [B1 B2]. split.
+    - intros x Hx. cbn [tatoms] in Hx. rewrite app_nil_r in Hx. apply in_app_or in Hx.
+      destruct Hx; [now apply A1|now apply B1].
+    - cbn [const_free]. now rewrite A2, B2.
+  Qed.
+  Lemma td_Sum2 a b : td (TSum [a; b]) = td a +m td b.
+  Proof. cbn [tden]. now rewrite madd_0_r. Qed.
+
+  Theorem law_dd t : prog t -> ev (TD (TD t)) = 0m.
+  Proof. intros H. rewrite (prog_sound _ (prog_D _ (prog_D _ H))). cbn [tden]. apply (L_dd G HL). Qed.
+  Theorem law_deltadelta t : prog t -> ev (TDelta (TDelta t)) = 0m.
+  Proof. intros H. rewrite (prog_sound _ (prog_Delta _ (prog_Delta _ H))). cbn [tden]. apply (L_deltadelta G HL). Qed.
+
+  (* a*t1 + t2 *)
+  Definition tcomb (c : coef) (t1 t2 : tree) : tree := TSum [TScale c t1; t2].
+  Lemma prog_comb c t1 t2 : prog t1 -> prog t2 -> prog (tcomb c t1 t2).
+  Proof. intros H1 H2. apply prog_Sum2; [now apply prog_Scale|exact H2]. Qed.
+  Lemma td_comb c t1 t2 : td (tcomb c t1 t2) = cval G cenv (coef_c c) ** td t1 +m td t2.
+  Proof. unfold tcomb. rewrite td_Sum2. reflexivity. Qed.
+
+  Theorem law_lin_d c t1 t2 : prog t1 -> prog t2 ->
+    ev (TD (tcomb c t1 t2)) = cval G cenv (coef_c c) ** ev (TD t1) +m ev (TD t2).
+  Proof.
+    intros H1 H2. rewrite (prog_sound _ (prog_D _ (prog_comb c _ _ H1 H2))),
+      (prog_sound _ (prog_D _ H1)), (prog_sound _ (prog_D _ H2)).
+    cbn [tden]. fold (td (tcomb c t1 t2)). rewrite td_comb, (L_d_add G HL), (L_d_smul G HL). reflexivity.
+  Qed.
+  Theorem law_lin_delta c t1 t2 : prog t1 -> prog t2 ->
+    ev (TDelta (tcomb c t1 t2)) = cval G cenv (coef_c c) ** ev (TDelta t1) +m ev (TDelta t2).
+  Proof.
+    intros H1 H2. rewrite (prog_sound _ (prog_Delta _ (prog_comb c _ _ H1 H2))),
+      (prog_sound _ (prog_Delta _ H1)), (prog_sound _ (prog_Delta _ H2)).
+    cbn [tden]. fold (td (tcomb c t1 t2)). rewrite td_comb, (L_delta_add G HL), (L_delta_smul G HL). reflexivity.
+  Qed.
+  Theorem law_lin_hodge c t1 t2 : prog t1 -> prog t2 ->
+    ev (THodge (tcomb c t1 t2)) = cval G cenv (coef_c c) ** ev (THodge t1) +m ev (THodge t2).
+  Proof.
+    intros H1 H2. rewrite (prog_sound _ (prog_Hodge _ (prog_comb c _ _ H1 H2))),
+      (prog_sound _ (prog_Hodge _ H1)), (prog_sound _ (prog_Hodge _ H2)).
+    cbn [tden]. fold (td (tcomb c t1 t2)). rewrite td_comb, (L_hodge_add G HL), (L_hodge_smul G HL). reflexivity.
+  Qed.
+  Theorem law_lin_wedge_l c t1 t2 w : prog t1 -> prog t2 -> prog w ->
+    ev (TWedge (tcomb c t1 t2) w) = cval G cenv (coef_c c) ** ev (TWedge t1 w) +m ev (TWedge t2 w).
+  Proof.
+    intros H1 H2 Hw. rewrite (prog_sound _ (prog_Wedge _ _ (prog_comb c _ _ H1 H2) Hw)),
+      (prog_sound _ (prog_Wedge _ _ H1 Hw)), (prog_sound _ (prog_Wedge _ _ H2 Hw)).
+    cbn [tden]. fold (td (tcomb c t1 t2)). rewrite td_comb, (L_wedge_add_l G HL), (L_wedge_smul_l G HL). reflexivity.
+  Qed.
+  Theorem law_lin_wedge_r c t1 t2 w : prog t1 -> prog t2 -> prog w ->
+    ev (TWedge w (tcomb c t1 t2)) = cval G cenv (coef_c c) ** ev (TWedge w t1) +m ev (TWedge w t2).
+  Proof.
+    intros H1 H2 Hw. rewrite (prog_sound _ (prog_Wedge _ _ Hw (prog_comb c _ _ H1 H2))),
+      (prog_sound _ (prog_Wedge _ _ Hw H1)), (prog_sound _ (prog_Wedge _ _ Hw H2)).
+    cbn [tden]. fold (td (tcomb c t1 t2)). rewrite td_comb, (L_wedge_add_r G HL), (L_wedge_smul_r G HL). reflexivity.
+  Qed.
+
+  (* ---------------------------------------------------------------- infere_type *)
+  Lemma gif_ok z k : gif z = IOk k -> (0 <= z <= 6)%Z /\ k = Z.to_nat z.
+  Proof.
+    unfold gif. destruct (Z.leb 0 z && Z.leb z 6)%bool eqn:E; [|discriminate].
+    intros H. injection H as <-. apply andb_true_iff in E. destruct E as [E1 E2].
+    apply Z.leb_le in E1, E2. auto.
+  Qed.
+  Lemma ires_eqb_eq a b : ires_eqb a b = true -> a = b.
+  Proof. destruct a, b; cbn; intros H; try discriminate; try reflexivity. apply Nat.eqb_eq in H. now subst. Qed.
+  Lemma add_res_ok rs k : add_res rs = IOk k -> rs <> [] /\ Forall (fun r => r = IOk k) rs.
+  Proof.
+    unfold add_res. destruct (find is_ierr rs) as [e|] eqn:F.
+    - intros ->. apply find_some in F. destruct F as [_ F]. discriminate.
+    - destruct rs as [|r0 rest]; [discriminate|]. destruct (forallb (ires_eqb r0) rest) eqn:A; [|discriminate].
+      intros ->. split; [discriminate|]. constructor; [reflexivity|].
+      rewrite forallb_forall in A. apply Forall_forall. intros x Hx. symmetry. now apply ires_eqb_eq, A.
+  Qed.
+  Lemma first_dim_Add ts n : first_dim (Add ts) = Some n -> exists t, In t ts /\ first_dim t = Some n.
+  Proof.
+    induction ts as [|t r IH]; cbn [first_dim]; [discriminate|].
+    destruct (first_dim t) as [n'|] eqn:E.
+    - intros H. injection H as <-. exists t. split; [now left|exact E].
+    - intros H. destruct (IH H) as [x [Hx Hn]]. exists x. split; [now right|exact Hn].
+  Qed.
+  Lemma first_dim_in e : forall n, first_dim e = Some n -> exists s k, In (s, k, n) (atoms e).
+  Proof.
+    induction e as [s k n0|a IH|a IH|a IH|a1 a2 IH1 IH2|ts IH|q m|q m v IH] using expr_ind'; intros n H.
+    - cbn in H. injection H as <-. exists s, k. now left.
+    - apply (IH n H).
+    - apply (IH n H).
+    - apply (IH n H).
+    - cbn [first_dim] in H. destruct (first_dim a1) as [n'|] eqn:E.
+      + injection H as <-. destruct (IH1 _ eq_refl) as [s [k Hi]]. exists s, k. cbn [atoms]. apply in_or_app. now left.
+      + destruct (IH2 _ H) as [s [k Hi]]. exists s, k. cbn [atoms]. apply in_or_app. now right.
+    - apply first_dim_Add in H. destruct H as [t [Ht Hn]]. rewrite Forall_forall in IH.
+      destruct (IH t Ht n Hn) as [s [k Hi]]. exists s, k. now apply (atoms_Add_in t ts Ht).
+    - discriminate.
+    - apply (IH n H).
+  Qed.
+
+  (* the degree that infere_type returns is a degree of the value *)
+  Theorem infer_sound e : forall k, infer e = IOk k -> wf e -> deg G (den e) k.
+  Proof.
+    induction e as [s j n|a IH|a IH|a IH|a1 a2 IH1 IH2|ts IH|q m|q m v IH] using expr_ind'; intros k H Hw.
+    - cbn in H. injection H as <-. now destruct (wf_Form _ _ _ Hw) as [_ [_ Hd]].
+    - cbn [infer] in H. destruct (infer a) as [j| | |] eqn:E; try discriminate.
+      apply gif_ok in H. destruct H as [_ ->]. replace (Z.to_nat (Z.of_nat j + 1)) with (S j) by lia.
+      cbn [denote]. apply (L_deg_d G HL). now apply IH.
+    - cbn [infer] in H. destruct (infer a) as [j| | |] eqn:E; try discriminate.
+      apply gif_ok in H. destruct H as [Hr ->]. cbn [denote]. apply (L_deg_delta G HL).
+      replace (S (Z.to_nat (Z.of_nat j - 1))) with j by lia. now apply IH.
+    - cbn [infer] in H. destruct (infer a) as [j| | |] eqn:E; cbn [is_ierr] in H; try discriminate.
+      + destruct (first_dim a) as [n|] eqn:F; [|discriminate].
+        apply gif_ok in H. destruct H as [Hr ->].
+        destruct (first_dim_in _ _ F) as [s [k0 Hi]]. destruct (Hw _ Hi) as [Hn _]. subst n.
+        cbn [denote]. replace (Z.to_nat (Z.of_nat (dim G) - Z.of_nat j)) with (dim G - j)%nat by lia.
+        apply (L_deg_hodge G HL); [now apply IH | lia].
+      + destruct (first_dim a); discriminate.
+    - assert (Hw1 : wf a1) by (intros x Hx; apply Hw; cbn [atoms]; apply in_or_app; now left).
+      assert (Hw2 : wf a2) by (intros x Hx; apply Hw; cbn [atoms]; apply in_or_app; now right).
+      cbn [infer] in H. destruct (infer a1) as [j1| | |] eqn:E1; cbn [is_ierr] in H; try discriminate;
+        destruct (infer a2) as [j2| | |] eqn:E2; cbn [is_ierr] in H; try discriminate.
+      apply gif_ok in H. destruct H as [_ ->].
+      replace (Z.to_nat (Z.of_nat j1 + Z.of_nat j2)) with (j1 + j2)%nat by lia.
+      cbn [denote]. apply (L_deg_wedge G HL); [now apply IH1 | now apply IH2].
+    - cbn [infer] in H. apply add_res_ok in H. destruct H as [_ H]. rewrite den_Add. apply msum_deg.
+      apply wf_Add in Hw. rewrite Forall_forall in *. intros x Hx. apply in_map_iff in Hx.
+      destruct Hx as [t [<- Ht]]. apply IH; auto. apply H. apply in_map_iff. now exists t.
+    - discriminate.
+    - discriminate.
+  Qed.
+
+  Theorem law_d_top t : prog t -> infer (eval t) = IOk (dim G) -> ev (TD t) = 0m.
+  Proof.
+    intros H Hi. rewrite (prog_sound _ (prog_D _ H)). cbn [tden]. apply (L_d_top G HL).
+    rewrite <- (prog_sound _ H). apply infer_sound; [exact Hi | now apply prog_wf].
+  Qed.
+  Theorem law_delta_bot t : prog t -> infer (eval t) = IOk 0 -> ev (TDelta t) = 0m.
+  Proof.
+    intros H Hi. rewrite (prog_sound _ (prog_Delta _ H)). cbn [tden]. apply (L_delta_bot G HL).
+    rewrite <- (prog_sound _ H). apply infer_sound; [exact Hi | now apply prog_wf].
+  Qed.
+  Theorem law_hodge_hodge t k : prog t -> infer (eval t) = IOk k -> (k <= dim G)%nat ->
+    ev (THodge (THodge t)) = rsgn G (k * (dim G - k)) ** ev t.
+  Proof.
+    intros H Hi Hk. rewrite (prog_sound _ (prog_Hodge _ (prog_Hodge _ H))). cbn [tden].
+    rewrite (prog_sound _ H). apply (L_hodge_hodge G HL); [|exact Hk].
+    rewrite <- (prog_sound _ H). apply infer_sound; [exact Hi | now apply prog_wf].
+  Qed.
+End Sound.
+
+(* =================================================================== degree arithmetic (syntactic) *)
+Lemma gif_nat j : (j <= 6)%nat -> gif (Z.of_nat j) = IOk j.
+Proof.
+  intros H. unfold gif. replace (Z.leb 0 (Z.of_nat j) && Z.leb (Z.of_nat j) 6)%bool with true.
+  - now rewrite Nat2Z.id.
+  - symmetry. apply andb_true_iff. split; apply Z.leb_le; lia.
+Qed.
+Lemma gif_out z : (z < 0 \/ 6 < z)%Z -> gif z = IErrValue.
+Proof.
+  intros H. unfold gif. replace (Z.leb 0 z && Z.leb z 6)%bool with false; [reflexivity|].
+  symmetry. apply andb_false_iff. destruct H; [left|right]; apply Z.leb_gt; lia.
+Qed.
+
+(* the rules k+1, k-1, n-k, k+l *)
+Theorem infer_D a k : infer a = IOk k -> (k + 1 <= 6)%nat -> infer (D a) = IOk (k + 1).
+Proof. intros H Hk. cbn [infer]. rewrite H. replace (Z.of_nat k + 1)%Z with (Z.of_nat (k + 1)) by lia. now apply gif_nat. Qed.
+Theorem infer_Delta a k : infer a = IOk k -> (1 <= k <= 7)%nat -> infer (Delta a) = IOk (k - 1).
+Proof. intros H Hk. cbn [infer]. rewrite H. replace (Z.of_nat k - 1)%Z with (Z.of_nat (k - 1)) by lia. apply gif_nat. lia. Qed.
+Theorem infer_Hodge a k n : infer a = IOk k -> first_dim a = Some n -> (k <= n)%nat -> (n - k <= 6)%nat ->
+  infer (Hodge a) = IOk (n - k).
+Proof.
+  intros H Hn Hk H6. cbn [infer]. rewrite H, Hn. cbn [is_ierr].
+  replace (Z.of_nat n - Z.of_nat k)%Z with (Z.of_nat (n - k)) by lia. now apply gif_nat.
+Qed.
+Theorem infer_Wedge a b k l : infer a = IOk k -> infer b = IOk l -> (k + l <= 6)%nat ->
+  infer (Wedge a b) = IOk (k + l).
+Proof.
+  intros Ha Hb Hk. cbn [infer]. rewrite Ha, Hb. cbn [is_ierr].
+  replace (Z.of_nat k + Z.of_nat l)%Z with (Z.of_nat (k + l)) by lia. now apply gif_nat.
+Qed.
+(* outside the registry 0..6 the function raises ValueError *)
+Theorem infer_Delta_of_0 a : infer a = IOk 0 -> infer (Delta a) = IErrValue.
+Proof. intros H. cbn [infer]. rewrite H. reflexivity. Qed.
+Theorem infer_Hodge_beyond a k n : infer a = IOk k -> first_dim a = Some n -> (n < k)%nat ->
+  infer (Hodge a) = IErrValue.
+Proof. intros H Hn Hk. cbn [infer]. rewrite H, Hn. cbn [is_ierr]. apply gif_out. lia. Qed.
+
+(* products have no arm: infere_type(2*u) is None *)
+Theorem infer_Mul_none q m v : infer (Mul q m v) = INone.
+Proof. reflexivity. Qed.
+
+(* sums *)
+Theorem infer_sum_same ts k : ts <> [] -> Forall (fun t => infer t = IOk k) ts -> infer (Add ts) = IOk k.
+Proof.
+  intros Hne H. cbn [infer]. unfold add_res.
+  assert (Hm : Forall (fun r => r = IOk k) (map infer ts)).
+  { apply Forall_forall. intros r Hr. apply in_map_iff in Hr. destruct Hr as [t [<- Ht]].
+    rewrite Forall_forall in H. now apply H. }
+  destruct (find is_ierr (map infer ts)) as [e|] eqn:F.
+  - apply find_some in F. destruct F as [F1 F2]. rewrite Forall_forall in Hm. rewrite (Hm _ F1) in F2. discriminate.
+  - destruct ts as [|t0 r]; [congruence|]. cbn [map] in *. inversion Hm as [|? ? H0 Hr]; subst.
+    replace (forallb (ires_eqb (infer t0)) (map infer r)) with true; [exact H0|].
+    symmetry. apply forallb_forall. intros x Hx. rewrite Forall_forall in Hr. rewrite (Hr _ Hx), H0. cbn. apply Nat.eqb_refl.
+Qed.
+Theorem infer_sum_mixed_refused ts t1 t2 k1 k2 :
+  In t1 ts -> In t2 ts -> infer t1 = IOk k1 -> infer t2 = IOk k2 -> k1 <> k2 ->
+  is_ierr (infer (Add ts)) = true /\
+  ((forall t, In t ts -> is_ierr (infer t) = false) -> infer (Add ts) = IErrValue).
+Proof.
+  intros I1 I2 H1 H2 Hne. cbn [infer]. unfold add_res.
+  destruct (find is_ierr (map infer ts)) as [e|] eqn:F.
+  - apply find_some in F. destruct F as [F1 F2]. split; [exact F2|]. intros Hno.
+    apply in_map_iff in F1. destruct F1 as [t [<- Ht]]. rewrite (Hno t Ht) in F2. discriminate.
+  - assert (K : forallb (ires_eqb (hd INone (map infer ts))) (tl (map infer ts)) = false).
+    { destruct (forallb (ires_eqb (hd INone (map infer ts))) (tl (map infer ts))) eqn:A; [|reflexivity].
+      exfalso. rewrite forallb_forall in A.
+      assert (Hall : forall x, In x (map infer ts) -> x = hd INone (map infer ts)).
+      { destruct (map infer ts) as [|r0 rest]; [intros x []|]. cbn [hd tl] in *.
+        intros x [<-|Hx]; [reflexivity|]. symmetry. now apply ires_eqb_eq, A. }
+      assert (E1 : IOk k1 = hd INone (map infer ts)) by (apply Hall, in_map_iff; now exists t1).
+      assert (E2 : IOk k2 = hd INone (map infer ts)) by (apply Hall, in_map_iff; now exists t2).
+      congruence. }
+    destruct (map infer ts) as [|r0 rest] eqn:E.
+    + destruct ts; [destruct I1|discriminate].
+    + cbn [hd tl] in K. rewrite K. auto.
+Qed.
+
+(* =================================================================== the laws, syntactically *)
+Lemma mk_d_zero : mk_d zero = zero. Proof. reflexivity. Qed.
+Lemma mk_delta_zero : mk_delta zero = zero. Proof. reflexivity. Qed.
+Lemma mk_hodge_zero : mk_hodge zero = zero. Proof. reflexivity. Qed.
+
+Theorem dd_atom s k n : mk_d (mk_d (Form s k n)) = zero.
+Proof. cbn [mk_d]. destruct (Nat.eqb k n); reflexivity. Qed.
+Theorem deltadelta_atom s k n : mk_delta (mk_delta (Form s k n)) = zero.
+Proof. cbn [mk_delta]. destruct (Nat.eqb k 0); reflexivity. Qed.
+Theorem d_top_atom s n : mk_d (Form s n n) = zero.
+Proof. cbn [mk_d]. now rewrite Nat.eqb_refl. Qed.
+Theorem delta_bot_atom s n : mk_delta (Form s 0 n) = zero.
+Proof. reflexivity. Qed.
+Theorem hodge_hodge_atom s k n :
+  mk_hodge (mk_hodge (Form s k n)) =
+  if Nat.even (k * (n - k)) then Form s k n else Mul (-1 # 1) [] (Form s k n).
+Proof. cbn [mk_hodge]. unfold sign_q. destruct (Nat.even (k * (n - k))); reflexivity. Qed.
+
+Lemma sadd_zeros {A} (l : list A) : sadd (map (fun _ => zero) l) = zero.
+Proof.
+  unfold sadd.
+  assert (Hf : flat_map flat_add (map (fun _ : A => zero) l) = map (fun _ => zero) l).
+  { induction l as [|x r IH]; [reflexivity|]. cbn [map flat_map flat_add zero]. cbn [app]. now rewrite IH. }
+  rewrite Hf. unfold collect_all.
+  set (F := fun acc => fold_left (fun acc t => let (q, key) := term_split t in collect q key acc)
+                                 (map (fun _ : A => zero) l) acc).
+  assert (Hg : forall acc, acc = [] \/ acc = [(0, Cst 1 [])] -> F acc = [] \/ F acc = [(0, Cst 1 [])]).
+  { unfold F. clear F Hf. induction l as [|x r IH]; intros acc Ha; [exact Ha|]. cbn [map fold_left]. apply IH.
+    destruct Ha as [->| ->]; right; reflexivity. }
+  change (pack_add (rebuild (F [])) = zero).
+  destruct (Hg [] (or_introl eq_refl)) as [-> | ->]; reflexivity.
+Qed.
+(* d of a sum of bare d(.) terms is syntactically 0 *)
+Theorem dd_sum_of_d ts : mk_d (Add (map D ts)) = zero.
+Proof. cbn [mk_d]. rewrite map_map. cbn [mk_d]. apply sadd_zeros. Qed.
+Theorem deltadelta_sum_of_delta ts : mk_delta (Add (map Delta ts)) = zero.
+Proof. cbn [mk_delta]. rewrite map_map. cbn [mk_delta]. apply sadd_zeros. Qed.
+
+Open Scope string_scope.
+(* ... but not below an extracted coefficient: the Mul arm wraps the rest with evaluate=False *)
+Theorem dd_syntactic_refuted :
+  exists t, const_free t = true /\ eval (TD (TD t)) <> zero /\
+            eval (TD (TD t)) = Mul 2 [] (D (D (Form "u" 0 3))).
+Proof. exists (TScale (CNum 2) (TForm "u" 0 3)). split; [reflexivity|]. split; [discriminate|reflexivity]. Qed.
+Theorem deltadelta_syntactic_refuted :
+  exists t, const_free t = true /\ eval (TDelta (TDelta t)) <> zero.
+Proof. exists (TScale (CNum 2) (TForm "u" 2 3)). split; [reflexivity|discriminate]. Qed.
+Theorem d_top_syntactic_refuted :
+  exists t, const_free t = true /\ infer (eval t) = IOk 3 /\ first_dim (eval t) = Some 3%nat /\ eval (TD t) <> zero.
+Proof. exists (THodge (TForm "u" 0 3)). repeat split; discriminate. Qed.
+Theorem delta_bot_syntactic_refuted :
+  exists t, const_free t = true /\ infer (eval t) = IOk 0 /\ eval (TDelta t) <> zero.
+Proof. exists (THodge (TForm "u" 3 3)). repeat split; discriminate. Qed.
+Theorem hodge_hodge_syntactic_refuted :
+  exists t, const_free t = true /\ infer (eval t) = IOk 2 /\
+            eval (THodge (THodge t)) = Hodge (Hodge (D (Form "u" 1 3))) /\
+            eqv true (eval (THodge (THodge t))) (scale (sign_q (2 * (3 - 2)), []) (eval t)) = false.
+Proof. exists (TD (TForm "u" 1 3)). repeat split; reflexivity. Qed.
+(* linearity: the numeric factor of 2*(u+v) is not distributed (DifferentialForm.is_commutative is None),
+   and d does not look below it *)
+Theorem lin_d_syntactic_refuted :
+  exists c t1 t2, const_free t1 = true /\ const_free t2 = true /\
+    eqv true (eval (TD (tcomb c t1 t2)))
+             (sadd [scale (coef_c c) (eval (TD t1)); eval (TD t2)]) = false.
+Proof.
+  exists (CSym "a"), (TSum [TForm "u" 0 3; TForm "v" 0 3]), (TForm "w" 0 3).
+  repeat split; reflexivity.
+Qed.
+(* infere_type: same-degree sums with a coefficient are refused *)
+Theorem infer_sum_same_refuted :
+  let e := Add [Form "u" 1 3; Mul 2 [] (Form "v" 1 3)] in
+  infer e = IErrValue /\
+  forall G (HL : laws G) cenv fenv, wfe G fenv e -> deg G (denote G cenv fenv e) 1.
+Proof.
+  split; [reflexivity|]. intros G HL cenv fenv Hw.
+  assert (Hu : deg G (fenv "u") 1) by (apply (Hw ("u", 1%nat, 3%nat)); cbn; auto).
+  assert (Hv : deg G (fenv "v") 1) by (apply (Hw ("v", 1%nat, 3%nat)); cbn; auto).
+  cbn [denote]. apply (L_deg_add G HL); [exact Hu|]. apply (L_deg_add G HL); [|apply (L_deg_0 G HL)].
+  now apply (L_deg_smul G HL).
+Qed.
+Close Scope string_scope.
+
+(* =================================================================== a concrete graded module *)
+(* Dimension 2 over the rationals (Qc: canonical fractions, Leibniz equality).
+   Basis:  degree 0: c (the constant function 1), f      degree 1: e1, e2      degree 2: g, h
+   d f = e1, d e2 = g, d = 0 elsewhere;   star: c <-> g, f <-> h, e1 -> e2, e2 -> -e1;
+   delta = - star d star;   wedge: bilinear, c is a unit, e1 /\ e2 = g.
+   d is not trivial, star star = -1 on degree 1, delta is not trivial. *)
+From Coq Require Import Qcanon.
+Module G2.
+  Open Scope Qc_scope.
+  Record m6 := mk6 { xc : Qc; xf : Qc; x1 : Qc; x2 : Qc; xg : Qc; xh : Qc }.
+  Definition z6 : m6 := mk6 0 0 0 0 0 0.
+  Definition add6 (x y : m6) := mk6 (xc x + xc y) (xf x + xf y) (x1 x + x1 y) (x2 x + x2 y) (xg x + xg y) (xh x + xh y).
+  Definition opp6 (x : m6) := mk6 (- xc x) (- xf x) (- x1 x) (- x2 x) (- xg x) (- xh x).
+  Definition smul6 (r : Qc) (x : m6) := mk6 (r * xc x) (r * xf x) (r * x1 x) (r * x2 x) (r * xg x) (r * xh x).
+  Definition deg6 (x : m6) (k : nat) : Prop :=
+    match k with
+    | 0%nat => x1 x = 0 /\ x2 x = 0 /\ xg x = 0 /\ xh x = 0
+    | 1%nat => xc x = 0 /\ xf x = 0 /\ xg x = 0 /\ xh x = 0
+    | 2%nat => xc x = 0 /\ xf x = 0 /\ x1 x = 0 /\ x2 x = 0
+    | _ => x = z6
+    end.
+  Definition unit6 : m6 := mk6 1 0 0 0 0 0.
+  Definition d6 (x : m6) := mk6 0 0 (xf x) 0 (x2 x) 0.
+  Definition hodge6 (x : m6) := mk6 (xg x) (xh x) (- x2 x) (x1 x) (xc x) (xf x).
+  Definition delta6 (x : m6) := opp6 (hodge6 (d6 (hodge6 x))).
+  Definition wedge6 (x y : m6) :=
+    mk6 (xc x * xc y) (xc x * xf y + xf x * xc y) (xc x * x1 y + x1 x * xc y) (xc x * x2 y + x2 x * xc y)
+        (xc x * xg y + xg x * xc y + (x1 x * x2 y - x2 x * x1 y)) (xc x * xh y + xh x * xc y).
+
+  Definition G : gops := {|
+    R := Qc; r0 := 0; r1 := 1; radd := Qcplus; rmul := Qcmult; ropp := Qcopp; ofQ := Q2Qc;
+    M := m6; m0 := z6; madd := add6; mopp := opp6; smul := smul6;
+    deg := deg6; dim := 2; unit := unit6;
+    opd := d6; opdelta := delta6; ophodge := hodge6; opwedge := wedge6 |}.
+
+  Lemma m6_eq a b c d e f a' b' c' d' e' f' :
+    a = a' -> b = b' -> c = c' -> d = d' -> e = e' -> f = f' -> mk6 a b c d e f = mk6 a' b' c' d' e' f'.
+  Proof. intros; subst; reflexivity. Qed.
+  Ltac redg := cbv [G R r0 r1 radd rmul ropp ofQ M m0 madd mopp smul deg dim unit opd opdelta ophodge opwedge
+                   add6 opp6 smul6 d6 delta6 hodge6 wedge6 z6 unit6 deg6 rsgn Nat.even Nat.mul Nat.sub Nat.add
+                   xc xf x1 x2 xg xh] in *.
+  Ltac m6 := intros; redg; apply m6_eq; ring.
+
+  Lemma Q2Qc_add a b : Q2Qc (a + b) = Q2Qc a + Q2Qc b.
+  Proof. unfold Qcplus. apply Q2Qc_eq_iff. cbn [this Q2Qc]. rewrite !Qred_correct. reflexivity. Qed.
+  Lemma Q2Qc_mul a b : Q2Qc (a * b) = Q2Qc a * Q2Qc b.
+  Proof. unfold Qcmult. apply Q2Qc_eq_iff. cbn [this Q2Qc]. rewrite !Qred_correct. reflexivity. Qed.
+
+  Lemma deg6_z k : deg6 z6 k.
+  Proof. destruct k as [|[|[|k]]]; cbv [deg6 z6 xc xf x1 x2 xg xh]; auto. Qed.
+
+  Ltac four H := let A := fresh "A" in let B := fresh "B" in let C := fresh "C" in let D := fresh "D" in
+                 match type of H with _ /\ _ =>
+                   destruct H as [A [B [C D]]]; try rewrite A; try rewrite B; try rewrite C; try rewrite D end.
+  Ltac inj H := match type of H with _ = _ => injection H; intros end.
+  Ltac fin := first [ reflexivity | apply m6_eq; ring | repeat split; ring ].
+
+  Theorem G_laws : laws G.
+  Proof.
+    constructor.
+    - exact Qcrt.
+    - intros a b H. now apply Q2Qc_eq_iff.
+    - reflexivity.
+    - exact Q2Qc_add.
+    - exact Q2Qc_mul.
+    - m6. - m6. - intros [a b c d e f]; m6. - m6. - m6. - m6. - m6. - intros [a b c d e f]; m6.
+    - exact deg6_z.
+    - (* deg_add *) intros [a b c d e f] [a' b' c' d' e' f'] k Hx Hy. destruct k as [|[|[|k]]]; redg.
+      + four Hx; four Hy; subst; fin.
+      + four Hx; four Hy; subst; fin.
+      + four Hx; four Hy; subst; fin.
+      + injection Hx; injection Hy; intros; subst; fin.
+    - (* deg_smul *) intros r [a b c d e f] k Hx. destruct k as [|[|[|k]]]; redg.
+      + four Hx; subst; fin.
+      + four Hx; subst; fin.
+      + four Hx; subst; fin.
+      + injection Hx; intros; subst; fin.
+    - redg. auto.
+    - m6. - m6. - m6. - m6. - m6. - m6. - m6. - m6. - m6. - m6.
+    - m6. (* dd *)
+    - m6. (* delta delta *)
+    - (* d top *) intros [a b c d e f] Hx. redg. four Hx; subst; fin.
+    - (* delta bottom *) intros [a b c d e f] Hx. redg. four Hx; subst; fin.
+    - reflexivity.
+    - (* hodge hodge *) intros [a b c d e f] k Hx Hk. destruct k as [|[|[|k]]]; [| | |cbv [dim G] in Hk; lia]; redg;
+        four Hx; subst; fin.
+    - (* deg d *) intros [a b c d e f] k Hx. destruct k as [|[|[|k]]]; redg.
+      + four Hx; subst; fin.
+      + four Hx; subst; fin.
+      + four Hx; subst; fin.
+      + injection Hx; intros; subst. destruct k; fin.
+    - (* deg delta *) intros [a b c d e f] k Hx. destruct k as [|[|[|k]]]; redg.
+      + four Hx; subst; fin.
+      + four Hx; subst; fin.
+      + injection Hx; intros; subst; fin.
+      + injection Hx; intros; subst; fin.
+    - (* deg hodge *) intros [a b c d e f] k Hx Hk. destruct k as [|[|[|k]]]; [| | |cbv [dim G] in Hk; lia]; redg;
+        four Hx; subst; fin.
+    - (* deg wedge *) intros [a b c d e f] [a' b' c' d' e' f'] k l Hx Hy.
+      destruct k as [|[|[|k]]]; destruct l as [|[|[|l]]]; redg;
+        try (four Hx); try (four Hy); try (inj Hx); try (inj Hy); subst; fin.
+  Qed.
+End G2.
+
+(* the hypotheses are satisfiable, with a non-trivial d, delta and sign *)
+Theorem laws_nonvacuous : exists G, laws G /\ dim G = 2%nat /\
+  (exists x, opd G x <> m0 G) /\ (exists x, opdelta G x <> m0 G) /\
+  (exists x, deg G x 1 /\ ophodge G (ophodge G x) = smul G (ropp G (r1 G)) x /\ ophodge G (ophodge G x) <> x).
+Proof.
+  exists G2.G. split; [exact G2.G_laws|]. split; [reflexivity|]. repeat split.
+  - exists (G2.mk6 0 1 0 0 0 0)%Qc. discriminate.
+  - exists (G2.mk6 0 0 1 0 0 0)%Qc. discriminate.
+  - exists (G2.mk6 0 0 1 0 0 0)%Qc. cbn. repeat split; discriminate.
+Qed.
+
+(* ------------------------------------------------------------------ the unsound arms, on bare constants *)
+(* hodge(c) = 0 for every number / Constant c, d(2*a) = 2*a : false in the instance above *)
+Definition cenv1 : string -> R G2.G := fun _ => 1%Qc.
+Definition fenv0 : string -> M G2.G := fun _ => G2.z6.
+Theorem mk_hodge_const_refuted :
+  exists e, wfe G2.G fenv0 e /\
+    denote G2.G cenv1 fenv0 (mk_hodge e) <> ophodge G2.G (denote G2.G cenv1 fenv0 e).
+Proof. exists (Cst 1 []). split; [intros a []|]. cbn. discriminate. Qed.
+Theorem mk_d_const_refuted :
+  exists e, wfe G2.G fenv0 e /\ mk_d e = e /\
+    denote G2.G cenv1 fenv0 (mk_d e) <> opd G2.G (denote G2.G cenv1 fenv0 e).
+Proof. exists (Cst 2 [("a"%string, 1%nat)]). split; [intros a []|]. split; [reflexivity|]. cbn. discriminate. Qed.
+Theorem mk_delta_const_refuted :
+  exists e, wfe G2.G fenv0 e /\ mk_delta e = e /\
+    denote G2.G cenv1 fenv0 (mk_delta e) <> opdelta G2.G (denote G2.G cenv1 fenv0 e).
+Proof. exists (Cst 2 [("a"%string, 1%nat)]). split; [intros a []|]. split; [reflexivity|]. cbn. discriminate. Qed.
